@@ -292,6 +292,8 @@ func biRoutes(arity int, c *biCallable) []biRoute {
 	var rs []biRoute
 	if c.Kind != "method" {
 		rs = append(rs, biRoute{name: "Call", split: -1})
+		// the documentation of Call allows a nil VM for callees that do not need one
+		rs = append(rs, biRoute{name: "CallEx/nilvm", split: -3})
 	} else {
 		rs = append(rs, biRoute{name: "CallName/nilvm", split: -1})
 	}
@@ -404,6 +406,12 @@ func (e *biEnv) call(c *biCallable, args []ugo.Object, rt biRoute) (out biOutcom
 		ret, err = c.Recv.(ugo.NameCallerObject).CallName(c.Method, ugo.NewCall(nil, args))
 	case rt.split == -1:
 		ret, err = c.Obj.Call(args...)
+	case rt.split == -3:
+		ex, ok := c.Obj.(ugo.ExCallerObject)
+		if !ok {
+			return biOutcome{class: "skip"}
+		}
+		ret, err = ex.CallEx(ugo.NewCall(nil, args))
 	case rt.split >= 0:
 		call := ugo.NewCall(e.vm, args[:rt.split:rt.split], args[rt.split:]...)
 		if c.Kind == "method" {
